@@ -249,8 +249,9 @@ package store
 //@   invariant announced: forall i int :: 0 <= i && i <= rangeindex ==> arrived[heights[i]]
 
 //@ func (*heightSub).Init(hs, height)
-//@   props C12
+//@   props C04, C12
 //@   requires hs != nil
+//@   ensures [C04,seq] published: atomicU64(hs.height) == height
 //@   modifies AT_u64, sub.count, MH_Int_Int_has, MH_Int_Int_val, ghost:arrived
 //@ loop 0:
 //@   invariant monitor: forall h uint64 @ has(hs.heightSubs, h) :: has(hs.heightSubs, h) ==> !arrived[h] && hs.heightSubs[h] != nil
@@ -450,3 +451,116 @@ package store
 //@   invariant removed: forall h uint64 :: from <= h && h < height ==> gone(s, h)
 //@   invariant outside-untouched: forall h uint64 :: (h < from || h >= to) ==> (dsHas[kHeight(h)] <==> old(dsHas)[kHeight(h)]) && (has(s.pending.headers, h) <==> old(has(s.pending.headers, h)))
 //@   decreases to - height
+
+// ---- pointer moves made by DeleteRange
+//@ func (*Store).setTail(s, ctx, write, to)
+//@   props C08, C17
+//@   requires storeINV(s) && write != nil && !isBatch(write)
+//@   modifies $now, ghost:hcHas, ghost:hcVal, ghost:icHas, ghost:icVal, ghost:btHas, ghost:btPuts, ghost:btVal, ghost:dsHas, ghost:dsVal, ghost:dsWrites, AP_set, AP_val_Hdr, AT_u64, sub.count, MH_Int_Int_has, MH_Int_Int_val, ghost:arrived
+//@   before advanceHead [C17] head-moved-only-when-passed: !old(apSet(s.contiguousHead)) || to > old(apVal(s.contiguousHead).Height())
+//@   ensures [C08] inv: storeINV(s)
+//@   ensures [C08] tail-set: result == nil ==> apSet(s.tailHeader) && apVal(s.tailHeader).Height() == to && apSet(s.contiguousHead) && apVal(s.tailHeader).Height() <= apVal(s.contiguousHead).Height()
+//@   ensures [C08] tail-persisted: result == nil ==> dsHas[tailKey] && dsVal[tailKey] == jsonHash(apVal(s.tailHeader).Hash())
+//@   ensures [C08] failed-lookup-no-effect: result != nil && !present(s, to) ==> apVal(s.tailHeader) == old(apVal(s.tailHeader)) && apSet(s.tailHeader) == old(apSet(s.tailHeader)) && dsHas == old(dsHas)
+//@   ensures [C17] head-kept: old(apSet(s.contiguousHead)) && to <= old(apVal(s.contiguousHead).Height()) ==> apSet(s.contiguousHead) && apVal(s.contiguousHead) == old(apVal(s.contiguousHead))
+//@   ensures [C08] only-pointer-keys: forall k Key @ dsHas[k] :: k != tailKey && k != headKey ==> (dsHas[k] <==> old(dsHas)[k])
+
+//@ func (*Store).setHead(s, ctx, write, to)
+//@   props C08, C04
+//@   requires storeINV(s) && write != nil && !isBatch(write)
+//@   modifies $now, ghost:hcHas, ghost:hcVal, ghost:icHas, ghost:icVal, ghost:btHas, ghost:btPuts, ghost:btVal, ghost:dsHas, ghost:dsVal, ghost:dsWrites, AP_set, AP_val_Hdr, AT_u64, sub.count, MH_Int_Int_has, MH_Int_Int_val, ghost:arrived
+//@   ensures [C08] inv: storeINV(s)
+//@   ensures [C08] head-set: result == nil ==> apSet(s.contiguousHead) && apVal(s.contiguousHead).Height() == to
+//@   ensures [C08] head-persisted: result == nil ==> dsHas[headKey] && dsVal[headKey] == jsonHash(apVal(s.contiguousHead).Hash())
+//@   ensures [C04,seq] height-follows: result == nil ==> heightEq(s)
+//@   ensures [C08] tail-kept: apSet(s.tailHeader) == old(apSet(s.tailHeader)) && apVal(s.tailHeader) == old(apVal(s.tailHeader))
+//@   ensures [C08] only-pointer-keys: forall k Key @ dsHas[k] :: k != headKey ==> (dsHas[k] <==> old(dsHas)[k])
+
+//@ func (*Store).deinit(s)
+//@   props C08
+//@   requires s.heightIndex != nil && s.heightSub != nil
+//@   modifies ghost:hcHas, ghost:icHas, AP_set, AP_val_Hdr, AT_u64, sub.count, MH_Int_Int_has, MH_Int_Int_val, ghost:arrived
+//@   ensures [C08] emptied: !apSet(s.contiguousHead) && !apSet(s.tailHeader) && hcHas == emptyStrSet && icHas == emptyIntSet
+
+// wipe drops the whole store: nothing of it may stay readable or come back (C08)
+//@ func (*Store).wipe(s, ctx)
+//@   props C08
+//@   requires storeINV(s) && !isBatch(s.ds)
+//@   modifies ghost:hcHas, ghost:icHas, ghost:dsHas, ghost:dsWrites, ghost:dsDeletes, AP_set, AP_val_Hdr, AT_u64, sub.count, MH_Int_Int_has, MH_Int_Int_val, ghost:arrived, MH_Int_Hdr_has, MH_Str_Int_has
+//@   ensures [C08] inv: storeINV(s)
+//@   ensures [C08] pointers-dropped: !apSet(s.contiguousHead) && !apSet(s.tailHeader) && (result == nil ==> !dsHas[headKey] && !dsHas[tailKey])
+//@   ensures [C08] pending-dropped: forall h uint64 @ has(s.pending.headers, h) :: !has(s.pending.headers, h)
+
+// The parallel path (ranges of deleteRangeParallelThreshold headers and more) runs worker goroutines over a
+// job channel: outside the verified fragment. Its contract is ASSUMED to be the one proved for deleteSequential.
+//@ func (*Store).deleteParallel(s, ctx, from, to)
+//@   trusted
+//@   requires storeINV(s) && !isBatch(s.ds) && from <= to
+//@   modifies $now, ghost:hcHas, ghost:icHas, ghost:icVal, ghost:hCalls, ghost:dsHas, ghost:dsWrites, ghost:dsDeletes, MH_Int_Hdr_has, MH_Str_Int_has
+//@   ensures storeINV(s)
+//@   ensures from <= result0 && result0 <= to && (result2 == nil ==> result0 == to)
+//@   ensures forall h uint64 :: from <= h && h < result0 ==> gone(s, h)
+//@   ensures forall h uint64 :: (h < from || h >= to) ==> (dsHas[kHeight(h)] <==> old(dsHas)[kHeight(h)]) && (has(s.pending.headers, h) <==> old(has(s.pending.headers, h)))
+
+//@ func (*Store).deleteRangeRaw(s, ctx, from, to)
+//@   props C08, C14
+//@   requires storeINV(s) && !isBatch(s.ds) && from <= to && deleteRangeParallelThreshold <= 4611686018427387904
+//@   modifies $now, ghost:hcHas, ghost:icHas, ghost:icVal, ghost:hCalls, ghost:dsHas, ghost:dsWrites, ghost:dsDeletes, MH_Int_Hdr_has, MH_Str_Int_has
+//@   ensures [C08] inv: storeINV(s)
+//@   ensures [C08] progress-bounds: from <= result0 && result0 <= to
+//@   ensures [C08] complete-on-success: result2 == nil ==> result0 == to
+//@   ensures [C08] removed: forall h uint64 :: from <= h && h < result0 ==> gone(s, h)
+//@   ensures [C08] outside-untouched: forall h uint64 :: (h < from || h >= to) ==> (dsHas[kHeight(h)] <==> old(dsHas)[kHeight(h)]) && (has(s.pending.headers, h) <==> old(has(s.pending.headers, h)))
+
+// Sync hands over to the flush goroutine and blocks until the write queue is drained: the flush loop runs
+// meanwhile (it only ever adds to the datastore, moves head/tail and announces heights).
+//@ func (*Store).Sync(s, ctx)
+//@   trusted
+//@   modifies $now, ghost:hcHas, ghost:hcVal, ghost:icHas, ghost:icVal, ghost:btHas, ghost:btPuts, ghost:btVal, ghost:dsHas, ghost:dsVal, ghost:dsWrites, AP_set, AP_val_Hdr, AT_u64, MH_Int_Hdr_has, MH_Int_Hdr_val, MH_Str_Int_has, MH_Str_Int_val, sub.count, MH_Int_Int_has, MH_Int_Int_val, ghost:arrived
+
+//@ pure acceptedRange(from, to, hd, tl) = from < to && from <= hd.Height() && to > tl.Height() && ((from == tl.Height() && to <= hd.Height() + 1) || (to == hd.Height() + 1 && from >= tl.Height()))
+
+// DeleteRange: accepts only a prefix from Tail, a suffix up to Head+1 or the whole chain; rejects anything else
+// without effect; removes exactly the range; Head/Tail describe the remaining chain (C08)
+//@ func (*Store).DeleteRange(s, ctx, from, to)
+//@   props C08, C14, C04
+//@   requires storeINV(s) && s.ds != nil && !isBatch(s.ds) && deleteRangeParallelThreshold <= 4611686018427387904
+//@   rely after Sync: storeINV(s)
+//@   ghost hd H := result0 of call Head #0
+//@   ghost tl H := result0 of call Tail #0
+//@   ghost hderr error := result1 of call Head #0
+//@   ghost tlerr error := result1 of call Tail #0
+//@   ghost wiped error := result0 of call wipe #0
+//@   modifies $now, ghost:hcHas, ghost:hcVal, ghost:icHas, ghost:icVal, ghost:btHas, ghost:btPuts, ghost:btVal, ghost:dsHas, ghost:dsVal, ghost:dsWrites, ghost:dsDeletes, ghost:hCalls, AP_set, AP_val_Hdr, AT_u64, MH_Int_Hdr_has, MH_Int_Hdr_val, MH_Str_Int_has, MH_Str_Int_val, sub.count, MH_Int_Int_has, MH_Int_Int_val, ghost:arrived
+//@   ensures [C08] inv: storeINV(s)
+//@   ensures [C08] only-ends: result == nil ==> called(hd) && called(tl) && from < to && ((from == tl.Height() && to <= hd.Height() + 1) || (to == hd.Height() + 1 && from >= tl.Height()))
+//@   ensures [C08] rejected-no-effect: called(hd) && called(tl) && hderr == nil && tlerr == nil && !acceptedRange(from, to, hd, tl) ==> result != nil && dsDeletes == old(dsDeletes) && hCalls == old(hCalls) && apVal(s.contiguousHead) == hd && apVal(s.tailHeader) == tl && apSet(s.contiguousHead) && apSet(s.tailHeader)
+//@   ensures [C08] removed: result == nil && !called(wiped) ==> forall h uint64 :: from <= h && h < to ==> gone(s, h)
+//@   ensures [C08] removed-by-wipe: result == nil && called(wiped) ==> forall h uint64 :: from <= h && h < to ==> gone(s, h)
+//@   ensures [C08] tail-side-pointers: result == nil && from == tl.Height() && !called(wiped) ==> apSet(s.tailHeader) && apVal(s.tailHeader).Height() == to
+//@   ensures [C08] head-side-pointers: result == nil && from != tl.Height() ==> apSet(s.contiguousHead) && apVal(s.contiguousHead).Height() == from - 1 && apVal(s.tailHeader) == tl
+//@   ensures [C04,seq] height-follows: result == nil && from != tl.Height() ==> heightEq(s)
+
+// ---- restart (C06): pointers read back at Start resolve to stored chain headers, dangling ones are dropped,
+// and opening a store never deletes a header or an index entry
+//@ func (*Store).readByKey(s, ctx, key)
+//@   props C06
+//@   unreachable return1 : datastore read errors other than ErrNotFound are not modelled (store.spec)
+//@   requires hdrCacheOK() && dsHdrOK() && batchOK(s.pending) && s.ds != nil && !isBatch(s.ds) && (key == headKey || key == tailKey)
+//@   modifies $now, ghost:hcHas, ghost:hcVal, ghost:dsHas, ghost:dsWrites, ghost:dsDeletes, elems(Bytes)
+//@   ensures [C06] coherent: hdrCacheOK() && dsHdrOK()
+//@   ensures [C06] resolves: result1 == nil ==> onChain(result0) && old(dsHas)[key] && result0.Hash() == unjsonHash(old(dsVal)[key])
+//@   ensures [C06] zero-on-error: result1 != nil ==> result0.IsZero()
+//@   ensures [C06] absent-is-not-found: !old(dsHas)[key] ==> result1 != nil && errors.Is(result1, header.ErrNotFound) && dsHas == old(dsHas)
+//@   ensures [C06] only-the-pointer-goes: forall k Key @ dsHas[k] :: k != key ==> (dsHas[k] <==> old(dsHas)[k])
+//@   ensures [C06] kept-when-resolved: result1 == nil ==> dsHas == old(dsHas)
+
+//@ func (*Store).init(s, ctx)
+//@   props C06
+//@   requires hdrCacheOK() && dsHdrOK() && batchOK(s.pending) && s.ds != nil && !isBatch(s.ds) && s.heightSub != nil
+//@   modifies $now, ghost:hcHas, ghost:hcVal, ghost:dsHas, ghost:dsWrites, ghost:dsDeletes, elems(Bytes), AP_set, AP_val_Hdr, AT_u64, sub.count, MH_Int_Int_has, MH_Int_Int_val, ghost:arrived
+//@   ensures [C06] coherent: hdrCacheOK() && dsHdrOK()
+//@   ensures [C06] ends-resolve: result == nil && !old(apSet(s.contiguousHead)) && !old(apSet(s.tailHeader)) ==> ptrsOK(s)
+//@   ensures [C06] head-is-the-persisted-one: result == nil && !old(apSet(s.contiguousHead)) && apSet(s.contiguousHead) ==> old(dsHas)[headKey] && apVal(s.contiguousHead).Hash() == unjsonHash(old(dsVal)[headKey])
+//@   ensures [C06] tail-is-the-persisted-one: result == nil && !old(apSet(s.tailHeader)) && apSet(s.tailHeader) ==> old(dsHas)[tailKey] && apVal(s.tailHeader).Hash() == unjsonHash(old(dsVal)[tailKey])
+//@   ensures [C06] no-header-lost: forall k Key @ dsHas[k] :: k != headKey && k != tailKey ==> (dsHas[k] <==> old(dsHas)[k])
